@@ -170,26 +170,46 @@ def _all_retained_reachable(store):
     return out, md
 
 
-def _history(ctx, rep, rng, location, make_store, chdir=None, s3env=None):
+# directed shapes run at every location spelling before the random histories
+SCRIPTS = [
+    # multi-file manifests, a PARTIAL delete (rewritten manifest: added count 0, survivors EXISTING), the older snapshots expire, collection
+    ["append2", "append2", "delete", "expire+", "age", "gc", "delete", "expire+", "age", "gc"],
+    # delete + append in one commit, older snapshots still retained, collection
+    ["append", "append2", "delete+append", "age", "gc", "delsnap", "age", "gc"],
+]
+
+
+def _history(ctx, rep, rng, location, make_store, chdir=None, s3env=None, script=None):
     """one history at one location spelling; returns nothing, records violations"""
     from datashard import create_table
     t = create_table(location, tablekit.schema())
     store = make_store()
     open_txs = []
     trace = []
-    n_ops = rng.randint(3, 7 if not ctx.thorough else 14)
+    n_ops = len(script) if script else rng.randint(3, 7 if not ctx.thorough else 14)
     for i in range(n_ops):
-        op = rng.choice(["append", "append", "append", "delete", "expire", "delsnap", "opentx", "gc", "gc", "age"])
+        op = script[i] if script else rng.choice(["append", "append", "append2", "delete", "delete+append", "expire", "delsnap", "opentx", "gc", "gc", "age"])
         trace.append(op)
         try:
             if op == "append":
                 t.append_records(tablekit.rows(rng.randint(1, 2), start=i * 10))
-            elif op == "delete":
+            elif op == "append2":
+                with t.new_transaction() as tx:
+                    tx.append_data(tablekit.rows(1, start=i * 10))
+                    tx.append_data(tablekit.rows(2, start=i * 10 + 5))
+                    tx.commit()
+            elif op in ("delete", "delete+append"):
                 paths = tablekit.data_paths(t)
                 if paths:
                     with t.new_transaction() as tx:
-                        tx.delete_files([rng.choice(["/", ""]) + rng.choice(paths)])
+                        tx.delete_files([rng.choice(["/", ""]) + (paths[0] if script else rng.choice(paths))])
+                        if op == "delete+append":
+                            tx.append_data(tablekit.rows(1, start=i * 10 + 3))
                         tx.commit()
+            elif op == "expire+":
+                with t.new_transaction() as tx:
+                    tx.expire_snapshots(int(time.time() * 1000) + 10_000)
+                    tx.commit()
             elif op == "expire":
                 with t.new_transaction() as tx:
                     tx.expire_snapshots(int(time.time() * 1000) + rng.choice([-10_000, 10_000]))
@@ -269,7 +289,7 @@ def _end_to_end(ctx, rep):
     rng = ctx.rng("e2e")
     base = scratch_dir("c05-")
     cwd = os.getcwd()
-    n = ctx.budget(3, 40)
+    n = ctx.budget(4, 40)
     spellings = ["abs", "abs/", "rel", "./rel", "rel/", "d", "data", "m", "metadata", "symlink", "s3", "s3nested"]
     try:
         for round_ in range(n):
@@ -281,7 +301,8 @@ def _end_to_end(ctx, rep):
                     if sp in ("s3", "s3nested"):
                         with fakes3.S3Env() as env, fakes3.NoSleep():
                             loc = "wh/t" if sp == "s3" else "data/metadata/t"
-                            _history(ctx, rep, rng, loc, lambda: reader.S3Store(env.fake, loc), s3env=env)
+                            _history(ctx, rep, rng, loc, lambda: reader.S3Store(env.fake, loc), s3env=env,
+                                     script=SCRIPTS[round_] if round_ < len(SCRIPTS) else None)
                         continue
                     if sp == "abs":
                         loc, root = os.path.join(work, "tbl"), os.path.join(work, "tbl")
@@ -296,7 +317,7 @@ def _end_to_end(ctx, rep):
                         loc, root = sp.replace("rel", "tbl"), os.path.join(work, "tbl")
                     else:
                         loc, root = sp, os.path.join(work, sp)
-                    _history(ctx, rep, rng, loc, lambda root=root: reader.DirStore(root))
+                    _history(ctx, rep, rng, loc, lambda root=root: reader.DirStore(root), script=SCRIPTS[round_] if round_ < len(SCRIPTS) else None)
                 finally:
                     os.chdir(cwd)
                     shutil.rmtree(work, ignore_errors=True)
